@@ -338,6 +338,16 @@ UUps == [
                    [ups |-> <<Cm>>, ce |-> TRUE] >>,
     cids |-> << NoId, <<"cid", 1, 0>>, <<"cid", 9, 0>> >> ]
 
+\* The quick tier replays EVERY edge of three smaller universes (and of UPers):
+\* one rDNS name; no lease renaming; three upstream settings, no foreign ClientID.
+USrcQ  == [USrc EXCEPT !.rdns = {"r1"}]
+UDhcpQ == [UDhcp EXCEPT !.leasevals = {Ls("d1"), Ls("")}]
+UUpsQ  == [UUps EXCEPT
+    !.idsets = {{<<"cid", 1, 0>>, <<"ip", 5, 0>>}, {<<"net", 4, 2>>}, {M1}},
+    !.upsvals = << [ups |-> <<>>, ce |-> FALSE], [ups |-> <<Up("u1")>>, ce |-> FALSE],
+                   [ups |-> <<Up("u1")>>, ce |-> TRUE] >>,
+    !.cids = << NoId, <<"cid", 1, 0>> >> ]
+
 \* Small universe for the coverage (vacuity) run: every group enabled.
 UCov == [
     w |-> 4, emit |-> FALSE, dhcpOn |-> TRUE,
